@@ -25,7 +25,7 @@ from piquasso._math.decompositions import euler
 
 from piquasso.api.instruction import Instruction
 from piquasso.api.branch import Branch
-from piquasso.api.exceptions import InvalidParameter
+from piquasso.api.exceptions import InvalidParameter, InvalidState
 
 from piquasso._utils import sample_from_probability_map
 
@@ -452,6 +452,16 @@ def density_matrix_instruction(
             placed = np.zeros(len(modes), dtype=int)
             placed[modes,] = np.array(params[key])
             params[key] = tuple(int(n) for n in placed)
+
+    cutoff = state._config.cutoff
+
+    for key in ("ket", "bra"):
+        if sum(params[key]) >= cutoff:
+            raise InvalidState(
+                f"The occupation numbers '{tuple(params[key])}' require a cutoff of at "
+                f"least '{sum(params[key]) + 1}', but the provided cutoff is "
+                f"'{cutoff}': instruction={instruction}"
+            )
 
     _add_occupation_number_basis(state, **params)
 
